@@ -143,7 +143,8 @@ impl Gen {
             }
             1 => {
                 // ---- unstake
-                let holders: Vec<&String> = sc.users.iter().filter(|u| sc.w.bal(u, &sc.t) > 0).collect();
+                // (the contract-typed account, with its 32-byte address, is a holder like any other)
+                let holders: Vec<&String> = sc.users.iter().chain(std::iter::once(&sc.contract_user)).filter(|u| sc.w.bal(u, &sc.t) > 0).collect();
                 if holders.is_empty() {
                     return vec![Op::Advance { secs: 1 }];
                 }
@@ -442,7 +443,15 @@ impl Gen {
                 let rates: [u128; 7] = [0, 1, 10_000, 50_000, 99_999, 100_000, 100_001];
                 // (now and then the staking contract itself is named as treasury: legal, fees then stay put)
                 let tr = if rng.chance(1, 8) { Some(sc.q.clone()) } else if rng.chance(1, 2) { sc.treasury.clone() } else { None };
-                vec![Op::exec(&sc.admin, &sc.q, json!({"update_config": {"protocol_fee_config": {"dao_treasury_fee": rng.pick(&rates).to_string(), "treasury_address": tr}}}), vec![])]
+                let fee = json!({"dao_treasury_fee": rng.pick(&rates).to_string(), "treasury_address": tr});
+                if rng.chance(1, 4) {
+                    // together with the (unchanged) protocol section in one message
+                    let pc = o.cfg.get("protocol_chain_config").cloned().unwrap_or(serde_json::Value::Null);
+                    if !pc.is_null() {
+                        return vec![Op::exec(&sc.admin, &sc.q, json!({"update_config": {"protocol_chain_config": pc, "protocol_fee_config": fee}}), vec![])];
+                    }
+                }
+                vec![Op::exec(&sc.admin, &sc.q, json!({"update_config": {"protocol_fee_config": fee}}), vec![])]
             }
             5 => {
                 // protocol chain section: minimum and oracle toggle (channel / denom / prefix fixed)
@@ -464,7 +473,7 @@ impl Gen {
                 // native section: new staker / collector / unbonding period
                 let st = if rng.chance(1, 2) { o.staker() } else { addr20(&sc.cfg.native_prefix, &format!("staker-alt{}", rng.below(2))) };
                 let co = if rng.chance(1, 2) { o.collector() } else { addr20(&sc.cfg.native_prefix, &format!("collector-alt{}", rng.below(2))) };
-                let unb: [u64; 4] = [1, 100, 86_400, 1_209_600];
+                let unb: [u64; 5] = [1, 100, 86_400, 1_209_600, 0];
                 let vals = o.cfg.get("native_chain_config").and_then(|n| n.get("validators")).cloned().unwrap_or(json!([]));
                 vec![Op::exec(
                     &sc.admin,
